@@ -49,7 +49,8 @@ Inductive tstat :=
 | TCur                        (* installed in _block_table *)
 | TRetiring (t : nat)         (* replaced by thread t's CAS, its retire-list node not pushed yet *)
 | TListed                     (* hangs off the retire list *)
-| TFreed.                     (* deleted (EMPTY_BLOCK_TABLE: dropped from the retire list) *)
+| TFreed                      (* deleted by delete_list (EMPTY_BLOCK_TABLE: dropped from the retire list) *)
+| TDead.                      (* never published, deleted by the loser that allocated it *)
 Inductive bstat := BSpec (t : nat) | BLive | BDead.
 
 Record tinfo := {
@@ -139,7 +140,7 @@ Definition set_tst (ti : tinfo) (x : tstat) : tinfo :=
 Definition supersede (ti : tinfo) (t : nat) (c : Z) : tinfo :=
   {| tblocks := tblocks ti; tst := TRetiring t; tsup := Some c; tfreed := tfreed ti; tfrees := tfrees ti |}.
 Definition free_tinfo (ti : tinfo) (c : Z) : tinfo :=
-  {| tblocks := tblocks ti; tst := TFreed; tsup := tsup ti;
+  {| tblocks := tblocks ti; tst := match tst ti with TSpec _ => TDead | _ => TFreed end; tsup := tsup ti;
      tfreed := match tfreed ti with Some f => Some f | None => Some c end; tfrees := S (tfrees ti) |}.
 
 (* operator delete of one table / of every table of a node chain (RetireList::delete_list) *)
